@@ -25,6 +25,7 @@ import numpy as np
 
 from lib import floatq as fq
 from lib import impl
+from sim import pool as simpool
 
 ALLOWED_AXIOMS = []
 TRUSTED = [
@@ -358,7 +359,7 @@ def l3_spec(rng, kind_hint=None):
                             ["clone", 55.0], ["clone", 90.0]])
     spec = dict(region=region[0], ra0=region[1], dec0=region[2], flavour=flavour, unit=unit, nbins=nb, zmin=zmin, zmax=zmax, cosmo=cosmo,
                 closed=rng.choice(["right", "left"]), auto=rng.random() < 0.4, npatch=rng.choice([2, 3, 4, 5]),
-                nscales=rng.choice([1, 1, 2, 2, 3]), scale_order=rng.randrange(6), rweight=rng.choice([None, None, None, -1.0, 0.5]), resolution=rng.choice([None, 3, 10]),
+                nscales=rng.choice([1, 1, 2, 2, 3]), scale_order=rng.randrange(6), workers=rng.choice([1, 1, 2, 3, 4]), rweight=rng.choice([None, None, None, -1.0, 0.5]), resolution=rng.choice([None, 3, 10]),
                 weights=rng.choice([True, True, False, "mixed", "mixed"]), count_rr=rng.random() < 0.5, rands=rng.choice(["both", "unk", "ref"]),
                 prior=rng.random() < 0.25, dseed=rng.randrange(10 ** 6))
     # the geometry is drawn from its own generator (the sequence of the draws above is what it was before)
@@ -367,6 +368,20 @@ def l3_spec(rng, kind_hint=None):
     if kind_hint is not None:
         spec.update(SYM)  # the targeted probes of other classes keep data centred on the given centres
     return spec
+
+
+def measure_with_workers(spec, call):
+    """the measurement itself, by one worker or by 2-4 workers of the simulated pool (results handed back in a seeded
+    completion order): the counts belong to their patch pair however the work is distributed"""
+    w = spec.get("workers", 1)
+    if w <= 1:
+        return call(1)
+    impl.set_threads(w)
+    try:
+        with simpool.patched(simpool.Schedule("random", seed=spec["dseed"] % 9973)):
+            return call(w)
+    finally:
+        impl.set_threads(1)
 
 
 def run_l3_case(ctx, spec, cid, terms, metas, cov):
@@ -468,7 +483,7 @@ def run_l3_case(ctx, spec, cid, terms, metas, cov):
             cats["rand"] = make_catalog(ctx, "rand", *sample(unk_n, unk_s, True, sh_unk), given())
             if prior_cfg is not None:
                 yaw.autocorrelate(prior_cfg, cats["data"], cats["rand"], count_rr=False, max_workers=1)
-            res = yaw.autocorrelate(cfg, cats["data"], cats["rand"], count_rr=spec["count_rr"], max_workers=1)
+            res = measure_with_workers(spec, lambda mw: yaw.autocorrelate(cfg, cats["data"], cats["rand"], count_rr=spec["count_rr"], max_workers=mw))
             kinds = [("dd", "data", "data", True, True), ("dr", "data", "rand", False, True)]
             if spec["count_rr"]:
                 kinds.append(("rr", "rand", "rand", True, True))
@@ -484,7 +499,7 @@ def run_l3_case(ctx, spec, cid, terms, metas, cov):
                 kw["ref_rand"] = cats["ref_rand"]
             if prior_cfg is not None:
                 yaw.crosscorrelate(prior_cfg, cats["ref"], cats["unk"], max_workers=1, **kw)
-            res = yaw.crosscorrelate(cfg, cats["ref"], cats["unk"], max_workers=1, **kw)
+            res = measure_with_workers(spec, lambda mw: yaw.crosscorrelate(cfg, cats["ref"], cats["unk"], max_workers=mw, **kw))
             kinds = [("dd", "ref", "unk", False, False)]
             if "unk_rand" in cats:
                 kinds.append(("dr", "ref", "unk_rand", False, False))
@@ -620,6 +635,7 @@ def run_l3_case(ctx, spec, cid, terms, metas, cov):
         ctx.count(key=(tuple(sorted((k, str(v)) for k, v in spec.items())), kind), nontrivial=nonzero or cfgs[0]["alpha"] is not None,
                   kind="L3/%s/%s/%s/%s" % ("auto" if spec["auto"] else "cross", kind, spec["flavour"], spec["region"]))
         ctx.bump("L3/unit:" + unit)
+        ctx.bump("L3/workers:%d" % spec.get("workers", 1))
         terms.append("Nat.add (c01_e2e_case %s %s %s %s %s %s %s %s %s %s %s %s %s)" % (
             fq.b(auto), fq.b(binned2),
             fq.lst([obj_term(*o) for o in O1]), fq.lst([obj_term(*o) for o in O2]),
